@@ -131,7 +131,7 @@ func run(rc *runConfig) int {
 }
 
 func clauseHasProp(fs *FuncSpec, p string) bool {
-	for _, cs := range [][]*Clause{fs.Req, fs.Ens} {
+	for _, cs := range [][]*Clause{fs.Req, fs.Ens, fs.Checks} {
 		for _, c := range cs {
 			if hasProp(c.Props, p) {
 				return true
